@@ -96,6 +96,16 @@ def run(rng, tier, model_ok):
     for (n, d) in vals[:: max(1, len(vals) // 300)]:
         combos.append((n, d, 12, 12))
         combos.append((n, d, 6, 8))
+    # boundary grid: terminating values k / 10^s (so that the digits cut off are known exactly: none, all zero, a single digit)
+    # under every small digit limit and thresholds around the value's magnitude; both signs
+    ks = [1, 7, 12, 105, 1001, 10001, 100001, 1000001, 20005, 300007, 99999, 100000, 1234567] if tier == "quick" else [1, 2, 5, 7, 9, 10, 11, 12, 19, 99, 100, 101, 105, 999, 1001, 99999, 100000, 100001, 1234567, 12345678]
+    for k in ks:
+        for sc in range(0, 9):
+            for lim in range(1, 9):
+                for el in (1, 2, 3, 4, 8, 12):
+                    if tier == "quick" and rng.random() < 0.5:
+                        continue
+                    combos.append((k * rng.choice([1, -1]), 10 ** sc, lim, el))
     corpus = [tuple(c) for c in vlib.load_corpus("C08")]
     combos = corpus + combos
     rep = vlib.run_impl(["D %d %d %d %d" % c for c in combos])
@@ -112,6 +122,8 @@ def run(rng, tier, model_ok):
     mismatches = []
     if model_ok:
         sub = [c for c in cases if abs(c[1][0]) < 10 ** 45 and c[1][1] < 10 ** 45]
+        if tier == "quick" and len(sub) > 5000:
+            sub = sub[:1500] + rng.sample(sub[1500:], 3500)
         bad = vlib.coq_eval_cases(sub, "C08", shard_size=600)
         for i, got in sorted(bad.items()):
             mismatches.append({"input": sub[i][1], "model": "".join(chr(x) for x in got), "impl": "".join(chr(x) for x in sub[i][2])})
